@@ -95,7 +95,7 @@ def _string_case(ch):
             if not t:
                 break
             i = ch.int(0, len(t) - 1)
-            op = ch.pick(["delete", "dup", "replace-junk", "insert-junk", "insert-lexeme", "drop-brace", "open-comment"])
+            op = ch.pick(["delete", "dup", "replace-junk", "insert-junk", "insert-lexeme", "drop-brace", "open-comment", "tweak-number", "tweak-number", "crlf"])
             if op == "delete":
                 t = t[:i] + t[i + 1 :]
             elif op == "dup":
@@ -106,6 +106,16 @@ def _string_case(ch):
                 t = t[:i] + ch.pick(JUNK) + t[i:]
             elif op == "insert-lexeme":
                 t = t[:i] + " " + ch.pick(LEXEMES) + " " + t[i:]
+            elif op == "tweak-number":
+                # a boundary value where the program has a number (a let used as size, bound,
+                # step, index or count becomes 0, negative, fractional or too large)
+                nums = list(re.finditer(r"(?<![A-Za-z0-9_.])[-+]?[0-9]+(?:\.[0-9]+)?(?![A-Za-z0-9_.])", t))
+                if nums:
+                    m_ = nums[i % len(nums)]
+                    t = t[: m_.start()] + ch.pick(["0", "-1", "1", "2", "7", "0.5", "2.5", "-0.0", "1.0"]) + t[m_.end() :]
+            elif op == "crlf":
+                # Windows line ends: \r is not a Jaqal character (every or only the first line)
+                t = t.replace("\n", "\r\n") if ch.bool() else t.replace("\n", "\r\n", 1)
             elif op == "drop-brace":
                 j = max(t.rfind("}"), t.rfind(">"))
                 if j >= 0:
@@ -146,6 +156,9 @@ def _string_case(ch):
                 "let n 2.5\nregister q[n]\nmap s q[1]\nmap w q\ng w[0] s\n",
                 "let n -1\nregister q[n]\ng q[0]\n",
                 "let k 0.5\nregister q[2]\nmap a q[k:2]\ng a[0]\n",
+                "let s 0\nregister q[2]\nmap r q[0:2:s]\ng r[0]\n",
+                "let s 0\nregister q[4]\nmap r q[::s]\nmap t r\nloop 2 { g t[1] }\n",
+                "let s -1\nregister q[4]\nmap r q[3:0:s]\nmacro m a { g a }\nm r[0]\n",
                 "register q[2]\nmacro a { b }\nmacro b { a }\na\n",
                 "register q[2]\nmacro m a { g a }\nloop 2 { m q[1] }\nm 1.5\n",
                 "register q[1]\nbranch { '0': { g q[0] } }\n",
@@ -319,6 +332,34 @@ POOL_TEXTS = [
     ("parse-inj", "register q[2]\nXA q[0] q[1]\n"),
     ("parse-inj", "register q[2]\nNoSuch q[0]\n"),
 ]
+
+
+def _sibling_texts():
+    """Families of programs that share most of their text - the same outer macro, called with the
+    same arguments - and differ in ONE thing the shared part depends on (the inner macro, a let, the
+    register, a second register that makes the program unfit for execution): whatever the library
+    remembers about one of them must not be served to another."""
+    out = []
+    for inner in ("X a", "Y a", "X a; X a"):
+        for n in (0, 1):
+            for size in (2, 3):
+                for tworeg in (False, True):
+                    t = (
+                        f"let n {n}\nregister q[{size}]\n" + ("register r[2]\n" if tworeg else "")
+                        + f"macro inner a {{ {inner} }}\nmacro outer a {{ inner a; g q[n] }}\nouter q[1]\nloop 2 {{ outer q[0] }}\n"
+                    )
+                    out.append(("parse-expand", t))
+                    if n == 0 and size == 2:
+                        out.append(("parse", t))
+    for inner in ("XA a", "GP a", "XA a; GP a"):
+        for size in (2, 3):
+            t = f"from .moda usepulses *\nregister q[{size}]\nmacro inner a {{ {inner} }}\nmacro outer a {{ inner a }}\nsubcircuit {{ outer q[1] }}\n"
+            out.append(("run", t))
+            out.append(("parse-rel", t))
+    return out
+
+
+POOL_TEXTS = POOL_TEXTS + _sibling_texts()
 
 _PRISTINE_CACHE = {}
 
